@@ -309,7 +309,7 @@ type c15Cut struct {
 var c15Cuts sync.Map // snapshot DB dir -> *c15Cut (armed while present)
 
 func c15Hook(kind, dir string, writes int) error {
-	if kind != "commit" || dir == "" {
+	if kind != "commit" {
 		return nil
 	}
 	v, ok := c15Cuts.Load(dir)
@@ -360,6 +360,7 @@ type c15Env struct {
 	resets     int
 	tsDelta    int64 // seconds added to the timestamp of the next snapshot (may be negative)
 	small      bool  // snapshot DB opened with a small memtable (low per-transaction limits)
+	cutSeam    bool  // arm the commit seam around every call (key = snapshot DB dir; "" for in-memory: one ledger at a time)
 }
 
 func (e *c15Env) acct() []*common.Address { a := e.Acct; return []*common.Address{&a} }
@@ -854,7 +855,7 @@ func (e *c15Env) step(c *verifmc.Check, slot int, ms []*c15Member, check bool, c
 		}
 	}
 	var cut *c15Cut
-	if e.Dir != "" {
+	if e.cutSeam {
 		cut = &c15Cut{failAt: int32(cutAt)}
 		c15Cuts.Store(store.VerifSnapshotsDir(), cut)
 	}
@@ -941,6 +942,10 @@ func (e *c15Env) step(c *verifmc.Check, slot int, ms []*c15Member, check bool, c
 		if res.CutFired {
 			if !errors.Is(werr, c15ErrCut) {
 				report("atomicity:cut-error-swallowed", fmt.Sprintf("commit of WriteSnapshot %s was cut but the call returned %v / %v", shape, werr, p))
+			}
+			if e.Dir == "" {
+				res.Outcome += fmt.Sprintf("@commit%d", cutAt)
+				return res
 			}
 			// the process dies here: what a restarted node sees
 			if err := store.Close(); err != nil {
@@ -1356,39 +1361,54 @@ func c15PartHistories(c *verifmc.Check, name string, classes []string, maxSub, d
 
 func c15PartCut(c *verifmc.Check, t *testing.T) {
 	base := t.TempDir()
-	sels := c15Selections(c15BatchClasses, 2)
-	if !c.Thorough() {
-		// quick: singles and the ordered pairs led by a transfer, a deposit or a poison
-		var keep [][]string
-		for _, s := range sels {
-			if len(s) == 1 || s[0] == "T1" || s[0] == "D" || s[0] == "Xg" || s[0] == "Xa" {
-				keep = append(keep, s)
-			}
+	pairs := c15Selections(c15BatchClasses, 2)
+	// (a) in-memory ledgers, one at a time (the seam is a process global and
+	// in-memory Badger has no directory to key it by): every ordered selection
+	// of 1..2 classes; thorough adds the triples led by a transfer or a deposit
+	mem := append([][]string{}, pairs...)
+	// (b) on-disk ledgers in parallel (seam keyed by directory), store closed
+	// and reopened after every cut: singles + pairs led by T1 (quick), all
+	// ordered pairs (thorough)
+	var disk [][]string
+	for _, s := range pairs {
+		if c.Thorough() || len(s) == 1 || s[0] == "T1" {
+			disk = append(disk, s)
 		}
-		sels = keep
 	}
 	if c.Thorough() {
-		// plus every size-3 selection that starts with a non-poison member
 		for _, s := range c15Selections(c15BatchClasses, 3) {
 			if len(s) == 3 && (s[0] == "D" || s[0] == "T1") {
-				sels = append(sels, s)
+				mem = append(mem, s)
 			}
 		}
 	}
-	c.Set("cut_selections", len(sels))
+	c.Set("cut_selections_in_memory", len(mem))
+	c.Set("cut_selections_on_disk_reopened", len(disk))
 	var fired, maxCommits atomic.Int64
-	c.ParallelN(len(sels), "cut", func(_, i int) {
-		sel := sels[i]
-		c15Guard(c, "cut "+strings.Join(sel, ">"), func() {
-			dir := filepath.Join(base, fmt.Sprintf("cut-%d", i))
-			if err := os.MkdirAll(dir, 0o755); err != nil {
-				panic(err)
+	run := func(i int, sel []string, onDisk bool) {
+		kind := "mem"
+		if onDisk {
+			kind = "disk"
+		}
+		c15Guard(c, "cut "+kind+" "+strings.Join(sel, ">"), func() {
+			dir := ""
+			if onDisk {
+				dir = filepath.Join(base, fmt.Sprintf("cut-%d", i))
+				if err := os.MkdirAll(dir, 0o755); err != nil {
+					panic(err)
+				}
 			}
 			e := c15BuildSel(dir, sel, true)
-			defer func() { e.L.Close(); _ = os.RemoveAll(dir) }()
+			e.cutSeam = true
+			defer func() {
+				e.L.Close()
+				if dir != "" {
+					_ = os.RemoveAll(dir)
+				}
+			}()
 			var calls []string
 			rep := func(key, desc string) {
-				c.Violation(key, desc, map[string]any{"part": "cut", "selection": sel, "calls": append([]string{}, calls...)})
+				c.Violation(key, desc, map[string]any{"part": "cut", "ledger": kind, "selection": sel, "calls": append([]string{}, calls...)})
 			}
 			outs := []string{}
 			for k := 1; k <= 300; k++ {
@@ -1404,17 +1424,23 @@ func c15PartCut(c *verifmc.Check, t *testing.T) {
 				}
 				fired.Add(1)
 			}
-			c.Distinct("cut:" + strings.Join(sel, ">") + "|" + strings.Join(outs, "|"))
+			c.Distinct("cut:" + kind + ":" + strings.Join(sel, ">") + "|" + strings.Join(outs, "|"))
 			if i%40 == 0 {
-				c.Sample(map[string]any{"part": "cut", "selection_in_snapshot_order": sel, "calls": outs})
+				c.Sample(map[string]any{"part": "cut", "ledger": kind, "selection_in_snapshot_order": sel, "calls": outs})
 			}
 		})
-	})
+	}
+	for i, sel := range mem {
+		if i%16 == 0 && c.Expired("cut in-memory") {
+			break
+		}
+		run(i, sel, false)
+	}
+	c.ParallelN(len(disk), "cut", func(_, i int) { run(i, disk[i], true) })
 	c.Set("cuts_fired", fired.Load())
 	c.Set("max_commits_seen_in_one_writesnapshot", maxCommits.Load())
-	c.Require(fired.Load() >= int64(len(sels))/3, "commit seam fired only %d times over %d scenarios", fired.Load(), len(sels))
+	c.Require(fired.Load() >= int64(len(mem)+len(disk))/3, "commit seam fired only %d times over %d scenarios", fired.Load(), len(mem)+len(disk))
 }
-
 
 // ---------------------------------------------------------------- part 5: re-finalization matrix
 
@@ -1556,7 +1582,7 @@ func c15PartTooBig(c *verifmc.Check, t *testing.T) {
 			if err := wb.Flush(); err != nil {
 				panic(err)
 			}
-			e := &c15Env{L: &mcLedger{Net: tmpl.L.Net, Store: store}, Dir: dir, small: true, Acct: tmpl.Acct, Other: tmpl.Other,
+			e := &c15Env{L: &mcLedger{Net: tmpl.L.Net, Store: store}, Dir: dir, small: true, cutSeam: true, Acct: tmpl.Acct, Other: tmpl.Other,
 				pool: tmplPool, bodies: tmpl.bodies, firstFinal: map[crypto.Hash]crypto.Hash{}, baseTotal: tmpl.baseTotal, base: tmpl.base, baseKey: tmpl.baseKey, lastKey: tmpl.baseKey}
 			for j := range e.onChain {
 				e.onChain[j] = map[crypto.Hash]bool{}
@@ -1612,7 +1638,9 @@ func TestMC_C15(t *testing.T) {
 		"(1) batches: every ordered selection of 1..3 of 12 member classes (transfers, deposits, new-asset deposit and its conflicting twin, withdrawal submit, claim, pledge, mint, custodian update, ghost-key poison, asset-info poison), hashes steered into thirds of the hash space so the selection order is the snapshot order, each followed by the same batch on a second chain and the surviving/first members on a third; " +
 		"(2) one large batch (64 quick / 255 thorough tiny transfers+deposits) clean and with either poison sorted first/middle/last, retry without poison, re-finalization on another chain; " +
 		"(3) BFS over histories of WriteSnapshot calls (chain x subset of a fixed pool, chains introduced in order), state = hash of the full dump; " +
-		"(4) on-disk ledgers: the k-th Badger commit during the call is failed through badger.VerifHook for k=1,2,.. until the call completes, DB reopened after each cut. A distinct case = selection/history with its outcome vector")
+		"(4) commit cut: the k-th Badger commit during the call is failed through badger.VerifHook for k=1,2,.. until the call completes (in-memory ledgers one at a time for every ordered selection of 1..2 classes; on-disk ledgers closed and reopened after each cut); a successful call must have used exactly one commit; " +
+		"(5) re-finalization matrix: kind of the shared transaction (9) x timestamp of the second-written snapshot {earlier, equal, later than the first} x {an output locked by a spender between the writes} x {second snapshot holds only the shared transaction / also a fresh one}, plus a third snapshot earlier than both; " +
+		"(6) Badger per-transaction limit: the prepared ledger copied into on-disk stores with memtable sizes swept (384 B steps quick / 64 B thorough) so that ErrTxnTooBig strikes at every write index of batches of 1..6 members (overflow point computed by replaying the reference writes on a scratch transaction), up to stores where the batch fits. A distinct case = selection/history/shape with its outcome vector")
 	c.Assume("transaction bodies are written and inputs locked before the call (Debug assertions of WriteSnapshot are driver preconditions); snapshots are written on the genesis head round of chains 1..3 with unique timestamps; genesis chains are interchangeable (BFS introduces chains in order); Badger's own commit is atomic (the cut is injected before it); signatures are not checked by the storage layer")
 
 	badger.VerifHook = c15Hook
